@@ -49,3 +49,39 @@ pub open spec fn other_entries_untouched(a: Map<PKey, Seq<u8>>, b: Map<PKey, Seq
     &&& forall|q: Key| q != k ==> (#[trigger] b.dom().contains(PKey::Entry(q))) == a.dom().contains(PKey::Entry(q))
     &&& forall|q: Key| q != k && a.dom().contains(PKey::Entry(q)) ==> #[trigger] b[PKey::Entry(q)] == a[PKey::Entry(q)]
 }
+
+// ---- the nested helper write_local_file of Cache::write_bytes: open(create, truncate, write) + io::copy ----
+pub struct ReaderW { pub data: Ghost<Seq<u8>> }
+pub struct VFileH { pub key: Ghost<PKey> }
+// std::fs::OpenOptions as the flags it collects (builder methods by value: the call chain reads the same)
+pub struct VOpenOptions { pub c: bool, pub t: bool, pub w: bool }
+impl VOpenOptions {
+    pub fn new() -> (r: VOpenOptions) ensures !r.c && !r.t && !r.w, { VOpenOptions { c: false, t: false, w: false } }
+    pub fn create(self, b: bool) -> (r: VOpenOptions) ensures r.c == b && r.t == self.t && r.w == self.w, { VOpenOptions { c: b, t: self.t, w: self.w } }
+    pub fn truncate(self, b: bool) -> (r: VOpenOptions) ensures r.t == b && r.c == self.c && r.w == self.w, { VOpenOptions { c: self.c, t: b, w: self.w } }
+    pub fn write(self, b: bool) -> (r: VOpenOptions) ensures r.w == b && r.c == self.c && r.t == self.t, { VOpenOptions { c: self.c, t: self.t, w: b } }
+    // open(2) with O_WRONLY [| O_CREAT] [| O_TRUNC] (ASSUMED POSIX): the file exists afterwards (it must have existed without
+    // O_CREAT); O_TRUNC empties it, otherwise its old bytes stay; the handle stands at offset 0; no other name is touched
+    #[verifier::external_body]
+    pub fn open(self, path: &PathW, vfs: &mut VFsW) -> (r: Result<VFileH, IoError>)
+        ensures
+            r matches Ok(f) ==> self.w && (self.c || old(vfs).files@.dom().contains(path.key@)) && f.key@ == path.key@
+                && final(vfs).files@ == old(vfs).files@.insert(path.key@, if self.t || !old(vfs).files@.dom().contains(path.key@) { Seq::<u8>::empty() } else { old(vfs).files@[path.key@] }),
+            r is Err ==> final(vfs).files@ == old(vfs).files@,
+    { unimplemented!() }
+}
+// what writing `data` from offset 0 into a file holding `old` leaves: the data, followed by whatever of `old` lies beyond it
+pub open spec fn overwritten(old: Seq<u8>, data: Seq<u8>) -> Seq<u8> {
+    if data.len() >= old.len() { data } else { data + old.subrange(data.len() as int, old.len() as int) }
+}
+// io::copy(&mut reader, &mut file) on a handle at offset 0 (write_all semantics; ASSUMED): Ok => all bytes of the reader were
+// written from offset 0 on; Err => anything may be left under THAT name; no other name is touched
+#[verifier::external_body]
+pub fn vio_copy(reader: &mut ReaderW, file: &mut VFileH, vfs: &mut VFsW) -> (r: Result<u64, IoError>)
+    requires old(vfs).files@.dom().contains(old(file).key@),
+    ensures
+        final(file).key@ == old(file).key@,
+        r is Ok ==> final(vfs).files@ == old(vfs).files@.insert(old(file).key@, overwritten(old(vfs).files@[old(file).key@], old(reader).data@)),
+        forall|k: PKey| k != old(file).key@ ==> (#[trigger] final(vfs).files@.dom().contains(k)) == old(vfs).files@.dom().contains(k),
+        forall|k: PKey| k != old(file).key@ && old(vfs).files@.dom().contains(k) ==> #[trigger] final(vfs).files@[k] == old(vfs).files@[k],
+{ unimplemented!() }
